@@ -319,6 +319,46 @@ def check_laws(run, mon, kind, n, oshape, ashape, bshape, tkind, cx, raw, X, A, 
               "(A@B).inv() is not the inverse of the product", case)
     run.note_class("inverse", *sig)
 
+    # pairwise application: entry [object i][map j] of A.apply(X, "pairwise") is
+    # A[j] @ X[i] as a projective object, derived data included (seeded change
+    # C03-r3-2: a spurious axis in the derived data of pairwise-transformed
+    # polygons only)
+    if idx % 2 == 0 and len(oshape) + len(ashape) <= 3:
+        PW = A.apply(X, "pairwise")
+        want_pw = tuple(oshape) + tuple(ashape)
+        if mon.require(type(PW) is type(X) and tuple(PW.shape) == want_pw,
+                       "action-laws/pairwise/class-or-shape",
+                       "A.apply(X,'pairwise') is a %s of shape %r; X is a %s of shape %r, A has shape %r"
+                       % (type(PW).__name__, PW.shape, type(X).__name__, oshape, ashape), case):
+            for oi in np.ndindex(*oshape):
+                for ai in np.ndindex(*ashape):
+                    Aj = A[ai] if ai else A
+                    if tkind == "H.Isometry" or G.KINDS[kind][3] in (None, "edges"):
+                        E = Aj @ (X[oi] if oi else X)
+                        got = PW[oi + ai] if (oi + ai) else PW
+                        same_object(run, mon, "pairwise", kind, got, E, tol, case)
+                    else:
+                        # a general linear map on a hyperbolic object with
+                        # non-linear derived data: indexing re-derives that data
+                        # (and the image may leave the model), so compare the
+                        # stored arrays of the pairwise and the elementwise image
+                        EX = Aj @ X
+                        mon.judge(G.compare_primary(kind, PW.proj_data[oi + ai], EX.proj_data[oi]), tol,
+                                  "action-laws/pairwise/primary",
+                                  "pairwise image differs from A[j]@X on the primary data of a %s" % kind, case)
+                        if PW.aux_data is not None and PW.aux_data.shape[:len(want_pw)] == want_pw:
+                            mon.judge(G.compare_aux(kind, PW.aux_data[oi + ai], EX.aux_data[oi]), tol,
+                                      "action-laws/pairwise/auxiliary",
+                                      "pairwise image differs from A[j]@X on the derived data of a %s"
+                                      % kind, case)
+            if PW.aux_data is not None:
+                na = PW.aux_data.ndim - (X.aux_data.ndim - len(oshape))
+                mon.require(tuple(PW.aux_data.shape[:na]) == want_pw,
+                            "action-laws/pairwise/auxiliary-shape",
+                            "derived data of A.apply(X,'pairwise') has shape %r for a composite of shape %r"
+                            % (PW.aux_data.shape, want_pw), case)
+            run.note_class("pairwise", *sig)
+
     # by hand: column matrix times column vector
     prim = G.primary(kind, raw)
     if prim is not None:
@@ -490,13 +530,23 @@ def wl_words(run, rng, idx):
             gens[last] = U
             mixed = "float-then-int"
 
+    via_inverse_name = (idx // 2) % 3 == 1
+
     def assign(k, l):
         # assign through both conventions
+        M = gens[l]
+        name = l
+        if via_inverse_name and k == len(letters) - 1 and M.dtype.kind != "i":
+            # the generator is given through its inverse letter: rep['B'] = T^-1
+            # must make rep['b'] act as T (seeded change C03-r3-3: the pair
+            # stored in a canonical order with the matrices swapped)
+            M = np.linalg.inv(M)
+            name = l.upper()
         if k % 2 == 0:
-            T = (H.Isometry if hyp else P.Transformation)(gens[l].copy(), column_vectors=True)
+            T = (H.Isometry if hyp else P.Transformation)(M.copy(), column_vectors=True)
         else:
-            T = (H.Isometry if hyp else P.Transformation)(gens[l].T.copy())
-        rep[l] = T
+            T = (H.Isometry if hyp else P.Transformation)(M.T.copy())
+        rep[name] = T
     for k, l in enumerate(letters):
         assign(k, l)
     if idx % 3 == 1:
@@ -515,7 +565,8 @@ def wl_words(run, rng, idx):
     words = [""] + [rp.random_word(rng, letters, int(L)) for L in rng.integers(1, 13, size=6)]
     words.append(letters[0].upper() + letters[-1] + letters[0])      # always an inverse letter
     case = {"representation": type(rep).__name__, "dimension": n, "generators(column)": gens,
-            "point": x, "words": words, "mixed_dtype": mixed, "reassigned": idx % 3 == 1}
+            "point": x, "words": words, "mixed_dtype": mixed, "reassigned": idx % 3 == 1,
+            "last_generator_assigned_via_inverse_name": via_inverse_name}
     run.current_case = case
     want_T = H.Isometry if hyp else P.Transformation
     images = {}
@@ -568,6 +619,30 @@ def wl_words(run, rng, idx):
                               "representation-action/pairwise-word-image",
                               "elements(words).apply(p,'pairwise')[i][j] differs from word j's "
                               "matrix applied to point i", dict(case, word=w))
+    # a subgroup representation acts through the substituted words, whichever way
+    # its inverse generators are obtained
+    if ngen >= 2 and mixed == "none":
+        sw = {"a": rp.random_word(rng, letters, 2) + letters[0], "b": letters[-1] + rp.random_word(rng, letters, 1)}
+        ci = bool(idx % 2)
+        case3 = dict(case, subgroup_generators=sw, compute_inverse=ci)
+        run.current_case = case3
+        sub = rep.subgroup(sw, compute_inverse=ci)
+        inv = lambda w: "".join(c.swapcase() for c in reversed(w))
+        for w in ("a", "B", "abAB", "Ba", rp.random_word(rng, "ab", 5)):
+            full = "".join(sw[c] if c.islower() else inv(sw[c.lower()]) for c in w)
+            Mw, scale = rp.word_matrix(gens, full)
+            img = sub[w] @ p
+            exp = np.einsum("ij,...j->...i", Mw, x)
+            with np.errstate(all="ignore"):
+                kappa = float(np.max(scale * np.linalg.norm(x, axis=-1) / np.linalg.norm(exp, axis=-1)))
+            if not np.isfinite(kappa) or kappa > 1e6:
+                mon.skip("ill-conditioned word (cancellation > 1e6)")
+                continue
+            mon.judge(rp.max_row_dev(img.proj_data, exp), 1e-11 * max(kappa, 1.0) * len(full),
+                      "representation-action/subgroup-word-image",
+                      "subgroup(...)[w]@p differs from the substituted word's matrix applied to p",
+                      dict(case3, word=w, substituted=full))
+            run.note_class("subgroup-word", type(rep).__name__, n, ci)
     if idx < 3:
         run.sample({"representation": type(rep).__name__, "dimension": n, "words": words})
 
